@@ -133,6 +133,11 @@ class Unit:
                         txt, spans, pos2line = render_with_map(w)
                 for lo, hi, lab in spans:
                     self.label_spans.append((line + lo, line + hi, lab, w.name()))
+                # `// @L` labels inside woven text (contracts of lifted closures, const blocks)
+                for k, ln in enumerate(txt.split('\n')):
+                    m = lab_re.search(ln)
+                    if m and not any(a <= line + k <= b for a, b, _, _ in self.label_spans if a == line + k):
+                        self.label_spans.append((line + k, line + k, m.group(1).strip(), w.name()))
                 views = [w] + w.subs
                 for v in views:
                     if v.under_contract:
